@@ -192,6 +192,27 @@ impl Codec {
     }
 }
 
+impl Codec {
+    /// The same through the scanner over an iterator of strings (`base::scan::IterScanner`, the scanner behind
+    /// values made from token lists), which drives the converters with a loop of its own.
+    fn lib_iter_scanner(self, t: &str, cuts: &[usize]) -> Result<Vec<u8>, String> {
+        use domain::base::scan::{IterScanner, Scanner};
+        let mut tokens: Vec<String> = vec![String::new()];
+        for (i, ch) in t.chars().enumerate() {
+            if cuts.contains(&i) && i > 0 {
+                tokens.push(String::new());
+            }
+            tokens.last_mut().unwrap().push(ch);
+        }
+        let mut sc = IterScanner::<_, Vec<u8>>::new(tokens.iter());
+        match self {
+            Codec::B16 => sc.convert_entry(base16::SymbolConverter::new()).map_err(|e| e.to_string()),
+            Codec::B64 => sc.convert_entry(base64::SymbolConverter::new()).map_err(|e| e.to_string()),
+            Codec::B32 => sc.convert_token(base32::SymbolConverter::new()).map_err(|e| e.to_string()),
+        }
+    }
+}
+
 fn verdict_s(v: &Result<Vec<u8>, String>) -> &'static str {
     if v.is_ok() { "ok" } else { "err" }
 }
@@ -238,9 +259,25 @@ fn check_text(c: &mut Ctx, fam: &str, idx: u64, codec: Codec, text: &str, rng: &
         } else {
             vec![codec.lib_conv(text, &[]), codec.lib_conv(text, &all), codec.lib_conv(text, &r1), codec.lib_conv(text, &r2)]
         };
-        (a, b, convs, b2)
+        // an empty text is no token at all for a scanner
+        let iters = if text.is_empty() || text.chars().any(|ch| ch == '\\' || ch == '"' || ch.is_whitespace()) {
+            vec![]
+        } else if codec == Codec::B32 {
+            vec![codec.lib_iter_scanner(text, &[])]
+        } else {
+            vec![codec.lib_iter_scanner(text, &[]), codec.lib_iter_scanner(text, &all), codec.lib_iter_scanner(text, &r1), codec.lib_iter_scanner(text, &r2)]
+        };
+        (a, b, convs, b2, iters)
     });
-    let Some((a, b, convs, b2)) = res else { return };
+    let Some((a, b, convs, b2, iters)) = res else { return };
+    for (i, v) in iters.iter().enumerate() {
+        judge(c, fam, idx, codec, "IterScanner", text, v, &want);
+        c.count("iter_scanner_texts", 1);
+        if i > 0 && v.as_ref().ok() != iters[0].as_ref().ok() {
+            let rp = c.replay_of(fam, idx, json!({"codec": codec.name(), "text": text}));
+            c.violation(&format!("chunking:{}:IterScanner", codec.name()), &format!("{} through IterScanner: the result depends on how {:?} is split into tokens: {:?} vs {:?}", codec.name(), text, iters[0], v), rp);
+        }
+    }
     if let Some(sd_) = c.guard(fam, idx, || json!({"codec": codec.name(), "text": text, "path": "serde"}), || codec.lib_serde_dec(text)) {
         judge(c, fam, idx, codec, "serde::deserialize", text, &sd_, &want);
         c.count("serde_texts_decoded", 1);
